@@ -534,8 +534,27 @@ def _declared_leg_role(fn, op):
     return None
 
 
+def _base_name_role(fn, op):
+    """role declared by the exact name of the variable the operand is a projection of (`from.place.location`, `to.place.location` in a `(from, to)` pattern)"""
+    cur = op
+    for _ in range(6):
+        if not mir.is_place(cur):
+            return None
+        nm = fn["names"].get(str(cur["l"]))
+        if nm:
+            return nm if nm in ("from", "to") else None      # only the unambiguous pair; `start`/`first`/`end` name tour positions, not leg ends
+        ds = mir.defs(fn).get(cur["l"], [])
+        if len(ds) != 1 or ds[0][0] != "s" or ds[0][3]["r"]["k"] not in ("use", "ref") or not mir.is_place(ds[0][3]["r"]["o"][0]):
+            return None
+        nxt = ds[0][3]["r"]["o"][0]
+        if any(isinstance(e, list) and e[0] == "f" for e in nxt["p"]) and not fn["names"].get(str(nxt["l"])):
+            return None     # a field of an unnamed aggregate: no declaration
+        cur = nxt
+    return None
+
+
 def _leg_rank(fn, op):
-    role = _declared_leg_role(fn, op)
+    role = _declared_leg_role(fn, op) or _base_name_role(fn, op)
     if role:
         return {role}
     out = set()
